@@ -129,12 +129,13 @@ class FaultyFactory:
     being integrated currently has a parameter value in `poison` (content-keyed, so 'row 3
     fails' means the same thing sequentially, in a pool, and in any completion order)."""
 
-    def __init__(self, inner: str = "scipy", poison: tuple[float, ...] = ()) -> None:
+    def __init__(self, inner: str = "scipy", poison: tuple[float, ...] = (), mode: str = "fail") -> None:
         self.inner = inner
         self.poison = tuple(poison)
+        self.mode = mode  # "fail": return an IntegrationFailure result; "raise": raise SimulatedSolverCrash
 
     def __call__(self, rhs, y0, jacobian=None):  # noqa: ANN001, ANN204
-        return FaultyIntegrator(rhs, y0, jacobian, inner=self.inner, poison=self.poison)
+        return FaultyIntegrator(rhs, y0, jacobian, inner=self.inner, poison=self.poison, mode=self.mode)
 
 
 def inner_type(name: str):  # noqa: ANN201
@@ -147,22 +148,32 @@ def inner_type(name: str):  # noqa: ANN201
     raise HarnessError(f"unknown integrator {name}")
 
 
+class SimulatedSolverCrash(RuntimeError):
+    """The solver itself blows up (not a ZeroDivisionError, not a failure value)."""
+
+
 class FaultyIntegrator:
-    def __init__(self, rhs, y0, jacobian=None, *, inner: str, poison: tuple[float, ...]) -> None:  # noqa: ANN001
+    def __init__(self, rhs, y0, jacobian=None, *, inner: str, poison: tuple[float, ...], mode: str = "fail") -> None:  # noqa: ANN001
         self.model = rhs
         self.poison = poison
+        self.mode = mode
         self.inner = inner_type(inner)(rhs, y0, jacobian)
 
     def _poisoned(self) -> bool:
-        try:
-            vals = self.model.get_parameter_values().values()
-        except AttributeError:
-            return False
+        m = self.model
+        if not hasattr(m, "get_parameter_values"):
+            # after a variable override the simulator hands over partial(shifted_call, model, shift)
+            m = next((a for a in getattr(m, "args", ()) if hasattr(a, "get_parameter_values")), None)
+            if m is None:
+                return False
+        vals = m.get_parameter_values().values()
         return any(float(v) in self.poison for v in vals)
 
     def _fail(self):  # noqa: ANN202
         from mxlpy.types import IntegrationFailure
 
+        if self.mode == "raise":
+            raise SimulatedSolverCrash("injected solver crash")
         return _result(IntegrationFailure())
 
     def reset(self) -> None:
